@@ -194,6 +194,14 @@ class RefEVM:
                   static=static, depth=1)
         f.jumpdests = valid_jumpdests(f.code)
         st = State(accounts=accts, balance=balance, frames=[f], rc=list(pre_rc or []), origin=origin, env=dict(env or {}))
+        if transfer:
+            # the transaction's own value transfer: the sender must afford it (otherwise the transaction is invalid)
+            s160, v = self.addr160(caller), simp(value)
+            if conc(v) != 0:
+                bal = self.balance_read(st, s160)
+                st.rc.append(simp(z3.UGE(bal, v)))
+                f.snapshot_tx = self.snapshot(st)
+                self.transfer(st, s160, bv(target, 160), v)
         return self.explore(st)
 
     def explore(self, st0: State):
